@@ -1,6 +1,7 @@
 package faucetsc
 
 import (
+	"0chain.net/core/sortedmap"
 	"encoding/hex"
 	"encoding/json"
 	"fmt"
@@ -59,7 +60,8 @@ func (gn *GlobalNode) Decode(input []byte) error {
 }
 
 func (gn *GlobalNode) updateConfig(fields map[string]string) error {
-	for key, value := range fields {
+	for _, key := range sortedmap.NewFromMap(fields).GetKeys() {
+		value := fields[key]
 		switch key {
 		case Settings[PourAmount]:
 			fAmount, err := strconv.ParseFloat(value, 64)
